@@ -27,6 +27,8 @@ type Loc struct {
 	// NonEmptyArray: arrays have at least one element (a zero-length repeated
 	// parameter or header cannot be told from an absent one)
 	NonEmptyArray bool
+	// NonEmptyMap: maps have at least one entry (protocol buffers cannot tell an empty map from an absent one)
+	NonEmptyMap bool
 	// SingleElemArray: arrays have exactly one element (open finding on response header arrays)
 	SingleElemArray bool
 	// MustSetDefaults: attributes with a default always get an explicit value
@@ -284,6 +286,12 @@ func genValue(t *rapid.T, d *m.Design, a *m.Attr, loc Loc, depth int, stack []st
 			hi = *v.MaxLen
 			if lo > hi {
 				lo = hi
+			}
+		}
+		if loc.NonEmptyMap && lo == 0 {
+			lo = 1
+			if hi < 1 {
+				hi = 1
 			}
 		}
 		n := rapid.IntRange(lo, hi).Draw(t, "maplen")
